@@ -111,3 +111,33 @@ KERNELS = [_mk(CallFn, "CallFn", inplace=False, id="C04.P.call", describe="pytho
            _mk(CallFn, "CallInplaceFn", inplace=True, id="C04.P.call_inplace", describe="python.call_inplace: one CallInplace node with the updated object, function / args / kwargs and a copy of the current additional dependencies"),
            _mk(CallInit, "CallInit", inplace=False, id="C04.P.call_node_inputs", describe="Call.__init__: the node's inputs (what the code generator orders statements by) are [function] + args + keyword values + additional dependencies, any number of dependencies"),
            _mk(CallInit, "CallInplaceInit", inplace=True, id="C04.P.call_inplace_node_inputs", describe="CallInplace.__init__: inputs = [updated object, function] + args + keyword values + additional dependencies")]
+
+
+class ItemUpdate(Kernel):
+    prop = "C14"
+    file, module = F, M
+    fn, sym = "setitem", "="
+
+    @property
+    def qual(self):
+        return self.fn
+
+    def setup(self, eng, bound=None):
+        self.v = {k: SObj(z3.Const(k, Obj)) for k in ("obj", "key", "value")}
+
+        def c_node(e, p, av, kw):
+            p.ghost["node"] = list(p.ghost.get("node", [])) + [(list(av), dict(kw))]
+            return SRec("UpdateItem", output=SObj(z3.Const("node_output", Obj)))
+
+        eng.contracts["UpdateItem"] = SContract(c_node, "UpdateItem(obj, key, value, op)")
+        return dict(self.v), [], {}
+
+    def post(self, eng, out, p):
+        nodes = p.ghost.get("node", []) if not isinstance(out, Raise) else []
+        ok = len(nodes) == 1 and len(nodes[0][0]) == 4 and not nodes[0][1] and isinstance(nodes[0][0][3], SConc)
+        eng.oblige(f"post:{self.fn} creates exactly one in-place item update `obj[key] {self.sym} value` with the caller's object, key and value", p,
+                   z3.And(z3.BoolVal(nodes[0][0][3].v == self.sym), *[a.t == b.t for a, b in zip(nodes[0][0][:3], self.v.values())]) if ok and all(isinstance(a, SObj) for a in nodes[0][0][:3]) else z3.BoolVal(False), "post")
+
+
+KERNELS += [_mk(ItemUpdate, f"Item_{fn}", fn=fn, sym=sym, id=f"C14.P.item_update[{fn}]", describe=f"python.{fn}: one UpdateItem node with operator '{sym}' (set overwrites, add increases, subtract decreases) on exactly the given object, key and value")
+            for fn, sym in (("setitem", "="), ("additem", "+="), ("subtractitem", "-="))]
